@@ -259,7 +259,7 @@ func genGrammarCase(rt *rapid.T) *Case {
 
 func TestOperandGrammar(t *testing.T) {
 	ev.SetChecks(ev.Scale(3000, 300000))
-	rapid.Check(t, func(rt *rapid.T) {
+	ev.Check(t, func(rt *rapid.T) {
 		c := genGrammarCase(rt)
 		if !run(c, "grammar", func(string, string) {}) {
 			rt.Fatalf("C05/grammar: batch authorization differs from brute force")
